@@ -3916,6 +3916,16 @@ class OptionalNode(ActionSinkNode):
         if sub_dfa.starting_state in sub_dfa.accepting_states:
             raise IllegalDFAStateError("Ambigious path in optional: should use optional or go to next", sub_dfa.starting_state)
 
+        # The entry state doubles as the "skipped" exit: what follows the optional is appended to it. If the body can come back to its own first
+        # state (it starts with a loop), that state must not be the entry, or the continuation would be offered on every iteration as well.
+        body_start = sub_dfa.starting_state
+        if type(body_start) is DFState and sub_dfa.transitions_pointing_to(body_start):
+            entry_state = DFState()
+            for trans in body_start.transitions:
+                entry_state.transition(trans.copy())
+            sub_dfa.add(entry_state)
+            sub_dfa.starting_state = entry_state
+
         sub_dfa.mark_accepting(sub_dfa.starting_state)
 
         # Add starting actions
